@@ -6,7 +6,7 @@
 From Coq Require Import List String.
 From KV Require Import LockDiscipline LockDisciplineProofs LocksFacts.
 From KV.gen Require Import Locks.
-From KV.gen Require LockLeaks.
+From KV.gen Require LockLeaks NilChecks.
 Import ListNotations.
 
 (* consistent lockset => no data race, on every trace that respects mutual exclusion *)
@@ -56,3 +56,8 @@ Theorem C07_no_lock_left_on_exit :
   forallb (fun r => existsb (row_eqb r) known_lock_holders) LockLeaks.lock_leaks = true.
 Proof. exact LocksFacts.C07_no_lock_left_on_exit. Qed.
 Print Assumptions C07_no_lock_left_on_exit.
+
+(* the nil answer of a look-up function is tested before the result is used (generated table) *)
+Theorem C07_lookups_tested_before_use : NilChecks.nil_unchecked = [].
+Proof. exact LocksFacts.C07_lookups_tested_before_use. Qed.
+Print Assumptions C07_lookups_tested_before_use.
